@@ -180,6 +180,10 @@ class SimSocket(object):
             raise OSError(errno.EBADF, 'Bad file descriptor')
         if not self.connected:
             raise OSError(errno.ENOTCONN, 'not connected')
+        if self.rx.rst:
+            # the connection was reset by the peer (TCP state CLOSE): Linux answers ENOTCONN,
+            # whether or not data received before the reset is still unread
+            raise OSError(errno.ENOTCONN, 'Transport endpoint is not connected')
         if how in (SHUT_WR, SHUT_RDWR) and not self.shut_wr:
             self.shut_wr = True
             self._queue_fin()
@@ -202,10 +206,13 @@ class SimSocket(object):
             return
         rx, tx = self.rx, self.tx
         if rx.rcvbuf and not rx.rst:
-            # closing with unread data: TCP answers with RST instead of FIN
-            tx.rst = True
-            tx.segs = []
-            tx.rcvbuf.clear()
+            # closing with unread data: TCP answers with RST instead of FIN.  What this side
+            # had sent before stays readable at the peer (Linux reports the reset once the
+            # receive queue is empty); writes still in flight arrive before the reset.
+            if tx.segs:
+                tx.rst_after_segs = True
+            else:
+                tx.rst = True
             self.sim.bump('net.rst_on_close_unread')
         elif not self.shut_wr:
             self.shut_wr = True
